@@ -28,6 +28,7 @@ EXPLANATION = (
 ENTRY = ["STEPfile::ReadExchangeFile", "STEPfile::AppendExchangeFile", "STEPfile::ReadWorkingFile",
          "STEPfile::AppendWorkingFile", "lazyInstMgr::loadInstance"]
 LENIENT_KINDS = ["sdaiINTEGER", "sdaiREAL", "sdaiNUMBER", "sdaiSTRING"]
+P21_STRING = re.compile(r"^'([^']|'')*'$")
 P21_INT = re.compile(r"^\s*[+-]?\d+\s*$")
 P21_REAL = re.compile(r"^\s*[+-]?\d+\.\d*(E[+-]?\d+)?\s*$")
 
@@ -198,6 +199,17 @@ def r1(prog, res):
                         t = access_path(x["ch"][0])
                         if t and t.startswith("*") and "ptr." in t:
                             assigned = True
+                            # SDAI_String keeps the exchange form: the substituted value must be a Part 21
+                            # string literal ('' = empty string); "" is the unset state and is written as $
+                            if t.endswith("ptr.S"):
+                                lit = None
+                                for y in walk(x["ch"][1]):
+                                    if y["k"] == "Str":
+                                        lit = y.get("s")
+                                state["lit"] = lit
+                                if lit is None or not P21_STRING.match(lit):
+                                    assigned = False
+                                    state["lit_ok"] = False
             outs.append((final, assigned, p.returned is not None, state.get("lit"), state.get("lit_ok")))
         return outs
 
@@ -225,8 +237,9 @@ def r1(prog, res):
                         o = outs[0] if outs else (None, None, None, None, None)
                         msg = ("documented outcome %s%s but the code yields %s (target assigned: %s%s)" %
                                (want[0], " + target assigned" if want[1] else "", o[0], o[1],
-                                ("; filler literal %r is not a Part 21 %s literal followed by a delimiter, so the "
-                                 "check `err.severity() <= SEVERITY_INCOMPLETE` fires" % (o[3], kname.split("_")[0].lower()))
+                                ("; filler literal %r is not a Part 21 %s literal%s" % (o[3], kname[4:].lower(),
+                                 " followed by a delimiter, so the check `err.severity() <= SEVERITY_INCOMPLETE` fires"
+                                 if kname != "sdaiSTRING" else ": the attribute stays unset and is written back as $"))
                                 if o[4] is False else ""))
                     res.add("R1.decision_table", key, f.where(target), good, msg,
                             {"outcomes": [list(map(str, o)) for o in outs]})
